@@ -28,16 +28,16 @@ func siteOf(stack string) string {
 
 var lastSite, lastMsg string
 
-// protect runs f; on panic records site/message and returns true.
-func protect(f func()) (panicked bool) {
+
+// protectS has the signature of lib.Protect but records the site relative to the module actually built against.
+func protectS(f func() string) (reply string, panicked bool) {
 	defer func() {
 		if v := recover(); v != nil {
 			lastMsg = fmt.Sprint(v)
 			lastSite = siteOf(string(debug.Stack()))
-			lib.LastPanicMsg = lastMsg
+			reply = "panic " + lib.PanicKind(v)
 			panicked = true
 		}
 	}()
-	f()
-	return false
+	return f(), false
 }
